@@ -212,6 +212,7 @@ package plugin
 //@   ensures result == nil
 
 //@ func newRPCClient
+//@   dead return#3 SyncStreams always returns nil
 //@   nopanic [C03.d]
 //@   nonblocking
 //@   requires c != nil && c.config != nil && c.address != nil && held(c.l)
@@ -899,6 +900,7 @@ package plugin
 //@   ensures closed(b.doneCh)   [C09.exit]
 
 //@ func (*GRPCBroker).listenForKnocks
+//@   dead return#1 defensive check: a message parked under id carries ServiceId id (channel invariant)
 //@   nopanic [C08.total] [C20.nopanic]
 //@   bounded peer-dead [C09.timer]
 //@   wait select#1 the pending's doneCh is closed when the listener is closed (Accept$2) and the knock channel is fed by Run: ends with the listener
@@ -909,6 +911,7 @@ package plugin
 //@   at call (streamer).Send#1 assert arg0 != nil && arg0.ServiceId == id && arg0.Knock != nil && arg0.Knock.Knock && arg0.Knock.Ack   [C08.listen]
 
 //@ func (*GRPCBroker).knock
+//@   dead return#2 defensive check: a message parked under id carries ServiceId id (channel invariant)
 //@   nopanic [C08.total] [C03.d] [C20.nopanic]
 //@   bounded peer-dead [C09.timer] [C03.c]
 //@   requires b.streamer != nil && !held(b.Mutex)
@@ -1161,6 +1164,8 @@ package plugin
 //@   immutable Context, ReattachConfigCh, CloseCh, SyncStdio   [C15.serve]
 
 //@ func Serve
+//@   dead return#2 the deferred os.Exit(1) ends the process before the function returns (no magic cookie configured)
+//@   dead return#3 the deferred os.Exit(1) ends the process before the function returns (wrong cookie)
 //@   nopanic [C16.total] [C15.total]
 //@   may_panic
 //@   stdout_writer [C16.frame]
